@@ -29,6 +29,11 @@ Decided for derived-type argument expansion and duplicate-argument removal:
      ``call.arg_map`` / ``call.arg_iter()``, which also enumerate the keyword
      arguments -- those would then be passed twice (all call-rewriting sites under
      ``loki/transformations``).
+ R6  the shape analysis behind explicit argument shapes does not test a bound
+     of a passed section for truth (``loki/transformations/argument_shape.py``
+     and ``sanitise/sequence_associations.py``): an explicit bound 0 is a falsy
+     ``IntLiteral`` and would be replaced by the default bound, giving the dummy a
+     wrong explicit size.
 Not decided: the index arithmetic of sequence-association resolution, explicit
 argument shapes, type-bound call rewriting, and the equivalence of the rewritten
 bodies.
@@ -302,9 +307,31 @@ def run_r5(ctx):
                 else:
                     ctx.judge('R5', inst, nontrivial=bool(used))
     ctx.floor('R5', 'positional-only call rewrites', n, 8)
+    # ---- R6
+    ctx.rule('R6', 'argument_shape.py / sequence_associations.py: no truth test of a range bound (.lower/.upper/.start/.stop)')
+    nfun = 0
+    hits = []
+    for rel in ('loki/transformations/argument_shape.py', 'loki/transformations/sanitise/sequence_associations.py'):
+        mod = m.module_by_path(rel)
+        for fn_ in [x for x in ast.walk(mod.tree) if isinstance(x, (ast.FunctionDef, ast.AsyncFunctionDef))]:
+            nfun += 1
+            for o_, t_ in X.truthy_bound_uses(fn_):
+                if not any(h[2] is o_ for h in hits):
+                    hits.append((mod, fn_, o_, t_))
+    ctx.floor('R6', 'functions judged', nfun, 6)
+    if hits:
+        for mod, fn_, o_, t_ in hits:
+            ctx.violation('R6', f'{fn_.name}:bound-truthiness', f'{mod.relpath}:{o_.lineno}',
+                          f'`{ast.unparse(t_)[:90]}` tests `{ast.unparse(o_)}` for truth: IntLiteral(0) is falsy, so for a passed section such '
+                          f'as x(0:5) the explicit bound is replaced by the default and the derived size / shape of the dummy is wrong')
+    else:
+        ctx.judge('R6', 'no truthiness test of section bounds', facts={'functions': nfun})
 
 
 MUTANTS = [
+    Mutant('passed-section-bound-by-truthiness', 'loki/transformations/argument_shape.py',
+           "                                d.lower if d.lower is not None else getattr(val.shape, 'lower', sym.IntLiteral(1)),",
+           "                                d.lower or getattr(val.shape, 'lower', sym.IntLiteral(1)),", expect=('R6', 'bound-truthiness')),
     Mutant('sequence-association-all-positional', 'loki/transformations/sanitise/sequence_associations.py',
            "            return call.clone(arguments=as_tuple(new_args[:n_args]), kwarguments=new_kwargs)", "            return call.clone(arguments = as_tuple(new_args))",
            expect=('R5', 'positional-list-from-all-arguments')),
